@@ -68,6 +68,7 @@ def vbool(t): return V('bool', t if z3.is_expr(t) else z3.BoolVal(bool(t)))
 NONE = V('none', NULL)
 
 REC = set()          # names of heap fields written since the last reset (used by the loop rule to compute its havoc set)
+REC_LOC = {}         # field name -> list of ref terms stored to (None = whole-field update)
 
 class Heap:
     def __init__(self, fields, f=None, alloc=None):
@@ -82,12 +83,18 @@ class Heap:
         return self.f[name]
     def load(self, r, name): return self.arr(name)[r]
     def store(self, r, name, v):
-        self.f[name] = z3.Store(self.arr(name), r, v); REC.add(name)
+        self.f[name] = z3.Store(self.arr(name), r, v); REC.add(name); REC_LOC.setdefault(name, []).append(r)
     def set(self, name, arr):
         """whole-field update (used by callee contracts)"""
-        self.arr(name); self.f[name] = arr; REC.add(name)
+        self.arr(name); self.f[name] = arr; REC.add(name); REC_LOC.setdefault(name, []).append(None)
+    def havoc_at(self, name, refs, tag):
+        """forget the value of field `name` at the given objects only (everything else keeps its value)"""
+        a = self.arr(name); so = self.fsort(name)
+        for r in refs: a = z3.Store(a, r, fresh('hv_' + name + '_' + tag, so))
+        self.f[name] = a
     def havoc(self, names, tag):
-        for nme in names: self.f[nme] = fresh('H_' + nme + '_' + tag, z3.ArraySort(Ref, self.fsort(nme)))
+        for nme in names:
+            self.f[nme] = fresh('H_' + nme + '_' + tag, z3.ArraySort(Ref, self.fsort(nme))); REC.add(nme); REC_LOC.setdefault(nme, []).append(None)
     def new(self, path, name='new'):
         r = fresh(name, Ref); path.pc += [Not(self.alloc[r]), r != NULL]
         self.alloc = z3.Store(self.alloc, r, True); path.fresh.append(r); REC.add('$alloc'); return r
@@ -130,6 +137,9 @@ class Engine:
         self.fn = fn; self.spec = spec
         self.node = fn.node
         self.obs = []; self.exits = []; self.loopk = 0; self.callk = {}; self.mute = 0
+        self.loop_ids = {}
+        for nd in ast.walk(self.node):
+            if isinstance(nd, ast.For): self.loop_ids.setdefault(id(nd), len(self.loop_ids))
         self.fields = dict(spec.fields)
     # -------------------------------------------------------------------------------------------- obligations
     def emit(self, path, label, goal, line=0, extra=()):
@@ -256,9 +266,32 @@ class Engine:
                     self.emit(p, f'no-ZeroDivisionError@{e.lineno}', b.term != 0, e.lineno); return vint(a.term / b.term)
             raise Unsupported(f'binop {type(e.op).__name__} on {a.kind},{b.kind}')
         if isinstance(e, ast.IfExp):
-            c = self.truth(self.ev(e.test, p), p); a = self.ev(e.body, p); b = self.ev(e.orelse, p)
+            c = self.truth(self.ev(e.test, p), p); vals = []
+            for sub, guard in ((e.body, c), (e.orelse, Not(c))):         # each branch is evaluated only under its guard
+                q = p.fork(); q.pc.append(guard); n_pc, n_f = len(q.pc), len(q.facts)
+                vals.append(self.ev(sub, q))
+                for extra in q.pc[n_pc:]: p.pc.append(Implies(guard, extra))
+                p.facts += q.facts[n_f:]; p.heap = q.heap; p.fresh = q.fresh
+            a, b = vals
             if a.kind != b.kind: raise Unsupported('IfExp of different kinds')
             return V(a.kind, If(c, a.term, b.term))
+        if isinstance(e, ast.ListComp):
+            # [x for x in src if cond(x)]  (single generator over an int list, element = the loop variable): a fresh list characterised by
+            # ghost witnesses in both directions (every result element comes from a source element satisfying cond, and vice versa)
+            if len(e.generators) != 1 or not isinstance(e.elt, ast.Name) or not isinstance(e.generators[0].target, ast.Name) \
+               or e.elt.id != e.generators[0].target.id or len(e.generators[0].ifs) > 1: raise Unsupported('list comprehension form')
+            g = e.generators[0]; src = self.ev(g.iter, p)
+            if src.kind != 'list[int]': raise Unsupported('comprehension over ' + src.kind)
+            n = self.llen(src, p); it = self.litems(src, p); var = g.target.id
+            def cond(t):
+                if not g.ifs: return z3.BoolVal(True)
+                q = p.fork(); q.env[var] = vint(t); return self.truth(self.ev(g.ifs[0], q), q)
+            r = p.heap.new(p, 'comp'); arr = fresh('comp', z3.ArraySort(I, I)); m = fresh('comp_len', I)
+            w = z3.Function(f'comp_src!{next(_n)}', I, I); v = z3.Function(f'comp_dst!{next(_n)}', I, I)
+            p.heap.store(r, '$items:int', arr); p.heap.store(r, '$len', m); p.pc += [0 <= m, m <= n]
+            p.facts.append(Schematic(1, lambda k: Implies(And(0 <= k, k < m), And(0 <= w(k), w(k) < n, it[w(k)] == arr[k], cond(arr[k]))), 'comp-sound'))
+            p.facts.append(Schematic(1, lambda j: Implies(And(0 <= j, j < n, cond(it[j])), And(0 <= v(j), v(j) < m, arr[v(j)] == it[j])), 'comp-complete'))
+            return V('list[int]', r)
         if isinstance(e, ast.List):
             elems = [self.ev(x, p) for x in e.elts]
             ek = elems[0].kind if elems else self.spec.empty_list_kind(e.lineno)
@@ -299,6 +332,11 @@ class Engine:
             cmp = (lambda a, b: a <= b) if d == 'min' else (lambda a, b: a >= b)
             p.facts.append(Schematic(1, lambda k, it=it, n=n, m=m: Implies(And(0 <= k, k < n), cmp(m, it[k])), d + '-bound'))
             return vint(m)
+        if d in ('np.array', 'numpy.array', 'np.asarray') and len(args) == 1:
+            src = self.ev(args[0], p)
+            if not src.kind.startswith('list['): raise Unsupported('np.array of ' + src.kind)
+            ek = elem_kind(src.kind); r = p.heap.new(p, 'nparr')
+            p.heap.store(r, items_field(ek), self.litems(src, p)); p.heap.store(r, '$len', self.llen(src, p)); return V(src.kind, r)
         if d == 'list' and len(args) == 1:
             src = self.ev(args[0], p)
             if src.kind == 'range':
@@ -333,7 +371,9 @@ class Engine:
             if recv.kind.startswith('list['):
                 if f.attr == 'append': self.lappend(recv, self.ev(args[0], p), p, line); return NONE
                 if f.attr == 'insert': self.linsert(recv, self.ev(args[0], p).term, self.ev(args[1], p), p, line); return NONE
-                if f.attr == 'tolist': return recv
+                if f.attr == 'tolist':           # fresh python list with the same items
+                    ek = elem_kind(recv.kind); r = p.heap.new(p, 'lst')
+                    p.heap.store(r, items_field(ek), self.litems(recv, p)); p.heap.store(r, '$len', self.llen(recv, p)); return V(recv.kind, r)
             raise Unsupported(f'method {f.attr} on {recv.kind}@{line}')
         raise Unsupported(f'call {d}@{line}')
     # -------------------------------------------------------------------------------------------- statements
@@ -389,6 +429,18 @@ class Engine:
                     out.append(o)
                 return out
             self.assign(s.targets[0], r, p); return [Outcome('next', p)]
+        if isinstance(s, ast.AugAssign) and isinstance(s.target, ast.Subscript) and isinstance(s.target.slice, ast.Slice):
+            # numpy / list slice update  a[start:] += n  with exact Python slice-start normalisation (negative start counts from the end)
+            sl = s.target.slice
+            if sl.upper is not None or sl.step is not None or sl.lower is None or not isinstance(s.op, ast.Add): raise Unsupported('slice form')
+            lst = self.ev(s.target.value, p); a = self.ev(sl.lower, p).term; nadd = self.ev(s.value, p).term
+            if lst.kind != 'list[int]': raise Unsupported('slice update on ' + lst.kind)
+            n = self.llen(lst, p); it = self.litems(lst, p)
+            start = If(a >= 0, If(a > n, n, a), If(n + a < 0, 0, n + a))
+            self.frame(p, lst.term, '$items:int', s.lineno)
+            new = fresh('slc', z3.ArraySort(I, I)); ARR_SIG[new.get_id()] = _canon_arr(it)
+            p.facts.append(Schematic(1, lambda k, new=new, it=it, start=start, nadd=nadd, n=n: Implies(And(0 <= k, k < n), new[k] == it[k] + If(k >= start, nadd, 0)), 'slice+='))
+            p.heap.store(lst.term, '$items:int', new); return [Outcome('next', p)]
         if isinstance(s, ast.AugAssign):
             cur = self.ev(s.target, p); rhs = self.ev(s.value, p)
             if cur.kind == 'int' and isinstance(s.op, ast.Add): val = vint(cur.term + rhs.term)
@@ -435,7 +487,7 @@ class Engine:
                     fields.update(getattr(self.spec, 'callee_modifies', {}).get(key, []))
         return {f for f in fields if f in self.fields or f.startswith('$')}, names
     def loop(self, s, p):
-        k = self.loopk; self.loopk += 1
+        k = self.loop_ids.setdefault(id(s), len(self.loop_ids))          # ordinal of the syntactic loop (textual order of first visit)
         it = self.ev(s.iter, p)
         if k not in self.spec.invariants: raise Unsupported(f'loop {k}@{s.lineno} has no invariant (stale or missing contract)')
         inv = self.spec.invariants[k]
@@ -456,18 +508,50 @@ class Engine:
         _, wn = self.written(s.body)
         # write set of the body: dry symbolic run of the body on the entry state with obligations muted, recording every heap field
         # written (directly, through list operations, or by callee contracts)
-        global REC
-        saved_rec, saved_k = set(REC), self.loopk; REC.clear(); self.mute += 1
+        global REC, REC_LOC
+        saved_rec, saved_loc = set(REC), {k_: list(v_) for k_, v_ in REC_LOC.items()}; REC.clear(); REC_LOC.clear(); self.mute += 1
+        dry_syms = set()
         try:
-            d = p.fork(); di = fresh(f'dry{k}', I); d.pc += [0 <= di, di < n]; bindf(d, di); self.block(s.body, d)
+            d = p.fork(); di = fresh(f'dry{k}', I); dry_syms.add(di.get_id()); d.pc += [0 <= di, di < n]
+            for nme in wn:                      # locals assigned in the body hold arbitrary values in an arbitrary iteration
+                if nme in d.env and (d.env[nme].kind in ('int', 'bool', 'str', 'ref') or d.env[nme].kind.startswith('list[')):
+                    c = fresh(f'dry_{nme}', sort_of(d.env[nme].kind)); dry_syms.add(c.get_id()); d.env[nme] = V(d.env[nme].kind, c)
+            bindf(d, di); self.block(s.body, d)
         finally:
             self.mute -= 1
-        wf = set(REC); REC.clear(); REC.update(saved_rec | wf); self.loopk = saved_k
+        wf = set(REC); locs = {k_: list(v_) for k_, v_ in REC_LOC.items()}
+        REC.clear(); REC.update(saved_rec | wf); REC_LOC.clear(); REC_LOC.update(saved_loc)
+        for k_, v_ in locs.items(): REC_LOC.setdefault(k_, []).extend(v_)
         if '$alloc' in wf:
             wf.discard('$alloc')
             if not getattr(self.spec, 'loops_may_allocate', False): raise Unsupported(f'allocation inside loop {k}')
+        entry_arrays = {p.heap.arr(f).get_id() for f in wf}
+        def invariant_ref(r):
+            """the object written is the same in every iteration: its term mentions no per-iteration symbol, no heap update, and reads
+            no field that the loop writes"""
+            seen = set()
+            def ok(t):
+                if t.get_id() in seen: return True
+                seen.add(t.get_id())
+                if t.get_id() in dry_syms: return False
+                if z3.is_app(t):
+                    kd = t.decl().kind()
+                    if kd == z3.Z3_OP_STORE: return False
+                    if kd == z3.Z3_OP_UNINTERPRETED and t.num_args() == 0 and str(t.sort()).startswith('Array') and t.decl().name().startswith('H_'):
+                        nm_ = _base_name(t.decl().name())
+                        if nm_ in wf: return False
+                return all(ok(c) for c in t.children())
+            return ok(r)
+        precise = {}
+        for f in wf:
+            rs = locs.get(f, [None])
+            if rs and all(r is not None and invariant_ref(r) for r in rs):
+                uniq = {}
+                for r in rs: uniq[r.get_id()] = r
+                precise[f] = list(uniq.values())
         def havoc(q, tag):
-            q.heap.havoc(wf, f'L{k}{tag}')
+            q.heap.havoc([f for f in wf if f not in precise], f'L{k}{tag}')
+            for f, refs in precise.items(): q.heap.havoc_at(f, refs, f'L{k}{tag}')
             for nme in wn:
                 if nme in q.env and q.env[nme].kind in ('int', 'bool', 'str', 'ref') or (nme in q.env and q.env[nme].kind.startswith('list[')):
                     q.env[nme] = V(q.env[nme].kind, fresh(f'{nme}_L{k}{tag}', sort_of(q.env[nme].kind)))
